@@ -215,6 +215,17 @@ def void_judge(src, nvoid):
         d_verb = parse_string(src, options=ParserOptions(verbose=True))
     if d_verb != d_true:
         return "verbose=True changes the result"
+    # the options are independent: each result is the same with an identity preprocessor hook and / or verbose switched on as well
+    ident = lambda filename, content: content  # noqa
+    for cv, want in ((False, d_false), (True, d_true)):
+        for verbose in (False, True):
+            with contextlib.redirect_stdout(io.StringIO()):
+                try:
+                    got = parse_string(src, options=ParserOptions(verbose=verbose, convert_void_to_zero_params=cv, preprocessor=ident))
+                except CxxParseError as e:
+                    return f"convert_void_to_zero_params={cv}, verbose={verbose}, identity preprocessor hook: parse error {e}"
+            if got != want:
+                return f"convert_void_to_zero_params={cv} behaves differently when an identity preprocessor hook is configured (verbose={verbose})"
     return None
 
 
